@@ -176,6 +176,16 @@ def explore(item, ctx, seed, easy_menu, clauses, quarter=True):
                         res[method] = tv
                     if res is None:
                         continue
+                    if item.get("scalars", False) and how == "constructed":
+                        # the method name held as an equal string built at run time / as a NumPy string
+                        for method in METHODS:
+                            for kname, mval in ot.string_kinds(method)[1:]:
+                                ok, tv2 = guarded(ctx, "setter-array", dict(case_m, method=method, method_passed_as=kname),
+                                                  lambda: setter(tarr, method=mval))
+                                ctx.tick()
+                                if ok and not np.array_equal(np.asarray(tv2, dtype=float), res[method], equal_nan=True):
+                                    ctx.fail("method-name-compared-by-value", dict(case_m, method=method, method_passed_as=kname),
+                                             observed=tv2, expected=res[method])
                     if not np.array_equal(tarr, np.array(targets, dtype=float)):
                         ctx.fail("target-array-unchanged", case_m, observed=tarr, expected=targets)
                         tarr = np.array(targets, dtype=float)
